@@ -7,7 +7,7 @@ import ast
 import os
 from pyvc.api import *
 
-SPEC_IMPORTS = ['contracts.common']
+SPEC_IMPORTS = ['contracts.common', 'contracts.c04']
 SPEC_FUNCTIONS = ['has_slot', 'is_data_descriptor', 'annotation_values']
 
 
@@ -444,3 +444,10 @@ NOT_DECIDED = [
     'isinstance()/inspect.* on live objects (may consult a __class__ property)',
 ]
 TRUSTED = ['exact builtin types have no user-defined special methods', 'getattr_static runs no user code']
+
+
+def dynamic_contracts(repo):
+    """completeness: the names offered after `obj.` include everything dir(obj) lists - the last stage of complete()
+    drops a name only as a duplicate of an IDENTICAL (name, completion) pair (contract shared with C04)"""
+    from contracts import c04
+    return [c for c in c04.CONTRACTS if c.id == 'C04.filter_names']
